@@ -1,4 +1,5 @@
 import Yuiv.Model.C05
+import Yuiv.Model.C05Tng
 import Yuiv.Drv.KhLink
 /-
 Driver for C05.
@@ -17,6 +18,13 @@ Driver for C05.
     dd: the verified checker `matMulZero` on every consecutive pair (+ shapes);
     mat: homology of the transmitted complex (Smith invariants, `KhRef.smithInvariants`);
     ref: `KhRef.khHomology` of the link with parameters (h0, t0) (cube of resolutions).
+
+Structural requests (model `Yuiv/Model/C05Tng.lean`).  Text: path `A1.2.3` (arc) / `C4.5` (circle); tangle = paths joined
+by `,` (`_` = empty); component `src/tgt/g/x/y`; cobordism = components joined by `+` (`_` = empty).  Inputs are RAW (the
+constructors `TngComp::arc/circ`, `Tng::new`, `CobComp::new`, `Cob::new` are applied); outputs are canonical up to the
+Rust equality of `TngComp` (arcs up to reversal, circles up to rotation/reflection), component order as stored.
+`tp P Q` path pair · `tn T` / `ta T P` / `tc T T` / `tv T mode k` / `tr T i` tangles · `ck kind …` constructors ·
+`cc C` / `cn C C` / `co C S|T i N|X|Y` components · `kq K` / `kc K K` / `ks K K` / `kp K S|T P N|X|Y` / `ki T` cobordisms.
 -/
 namespace Yuiv.Drv.C05
 open Yuiv Yuiv.C05 Yuiv.Drv Yuiv.Drv.KhLink
@@ -139,6 +147,232 @@ def matHomology (imin : Int) (ns : Array Nat) (ms : Array SpM) : KhRef.Result :=
 def splitBar (ts : List String) : List String × List String :=
   (ts.takeWhile (· != "|"), (ts.dropWhile (· != "|")).drop 1)
 
+/-! ### structural requests (`Model/C05Tng`) -/
+
+namespace Tngd
+open Yuiv.C05.Tng
+
+def listLt : List Nat → List Nat → Bool
+  | [], [] => false
+  | [], _ :: _ => true
+  | _ :: _, [] => false
+  | a :: as, b :: bs => a < b || (a == b && listLt as bs)
+
+def minList (ls : List (List Nat)) : List Nat :=
+  match ls with
+  | [] => []
+  | l :: rest => rest.foldl (fun m x => if listLt x m then x else m) l
+
+def rotations (l : List Nat) : List (List Nat) := (List.range l.length).map (fun i => l.drop i ++ l.take i)
+
+def edgesStr (l : List Nat) : String := String.intercalate "." (l.map toString)
+
+/-- canonical text of a `TngComp` up to `unori_eq` -/
+def pathStr (p : Path) : String :=
+  if p.closed then "C" ++ edgesStr (minList (rotations p.edges ++ rotations p.edges.reverse))
+  else "A" ++ edgesStr (if listLt p.edges.reverse p.edges then p.edges.reverse else p.edges)
+
+/-- exact text (edge order as stored) -/
+def pathRaw (p : Path) : String := (if p.closed then "C" else "A") ++ edgesStr p.edges
+
+def tngStr (t : Tng) : String := if t.isEmpty then "_" else String.intercalate "," (t.map pathStr)
+
+def compStr (c : CobComp) : String := s!"{tngStr c.src}/{tngStr c.tgt}/{c.genus}/{c.dots.1}/{c.dots.2}"
+
+def cobStr (k : Cob) : String := if k.isEmpty then "_" else String.intercalate "+" (k.map compStr)
+
+def rs {α} (f : α → String) : Res α → String
+  | .ok a => f a
+  | .panic => "panic"
+  | .err => "err"
+
+def natsStr (l : List Nat) : String :=
+  if l.isEmpty then "-" else edgesStr (sortBy (fun a b => decide (a < b)) l)
+
+def optNat : Option Nat → String
+  | some i => toString i
+  | none => "-"
+
+/-- raw path: `Res` because `Path::new` asserts a non-empty edge list -/
+def parsePath? (s : String) : Option (Res Path) :=
+  match s.toList with
+  | k :: rest =>
+    if k != 'A' && k != 'C' then none else
+      let body := String.ofList rest
+      if body == "" then some .panic else do
+        let es ← (body.splitOn ".").mapM parseNat?
+        some (Path.new es (k == 'C'))
+  | [] => none
+
+def parsePaths? (s : String) : Option (Res (List Path)) :=
+  if s == "_" then some (.ok []) else do
+    let ps ← (s.splitOn ",").mapM parsePath?
+    some (mapMRes (fun x => x) ps)
+
+def bindR {α β} (x : Res α) (f : α → Res β) : Res β :=
+  match x with
+  | .ok a => f a
+  | .panic => .panic
+  | .err => .err
+
+/-- raw tangle ↦ `Tng::new` -/
+def parseTng? (s : String) : Option (Res Tng) := do
+  let ps ← parsePaths? s
+  some (bindR ps Tng.new)
+
+def parseComp? (s : String) : Option (Res CobComp) :=
+  match s.splitOn "/" with
+  | [src, tgt, g, x, y] => do
+    let src ← parseTng? src; let tgt ← parseTng? tgt
+    let g ← parseNat? g; let x ← parseNat? x; let y ← parseNat? y
+    some (bindR src fun s => bindR tgt fun t => CobComp.new s t g (x, y))
+  | _ => none
+
+def parseCob? (s : String) : Option (Res Cob) :=
+  if s == "_" then some (.ok []) else do
+    let cs ← (s.splitOn "+").mapM parseComp?
+    some (bindR (mapMRes (fun x => x) cs) fun l => .ok (Cob.new l))
+
+def parseBottom? : String → Option Bottom
+  | "S" => some .src | "T" => some .tgt | _ => none
+
+def parseDot? : String → Option Dot
+  | "N" => some .none | "X" => some .X | "Y" => some .Y | _ => none
+
+def intStr (x : Int) : String := toString x
+
+/-- `tp P Q` -/
+def tpReply (p q : String) : Option String := do
+  let p ← parsePath? p; let q ← parsePath? q
+  match p, q with
+  | .ok p, .ok q =>
+    some s!"conn={b01 (isConnectable p q)} eq={b01 (unoriEq p q)} cmp={compCmp p q} pq={rs pathStr (p.connect q)} qp={rs pathStr (q.connect p)} red={pathRaw p.reduce}"
+  | _, _ => some "panic"
+
+def tngInfo (t : Tng) : String :=
+  let lp := Tng.findLoop t
+  let rm := match lp with
+    | none => "-"
+    | some i => rs (fun (x : Path × Tng) => s!"{pathStr x.1}:{tngStr x.2}") (Tng.removeAt t i)
+  s!"t={tngStr t} end={natsStr (Tng.endpts t)} eu={Tng.eulerNum t} loop={optNat lp} closed={b01 (Tng.isClosed t)} rm={rm}"
+
+def tnReply (t : String) : Option String := do
+  let t ← parseTng? t
+  some (rs tngInfo t)
+
+def taReply (t p : String) : Option String := do
+  let t ← parseTng? t; let p ← parsePath? p
+  some (rs tngInfo (bindR t fun t => bindR p fun p => Tng.appendArc t p))
+
+def tcReply (t u : String) : Option String := do
+  let t ← parseTng? t; let u ← parseTng? u
+  match t, u with
+  | .ok t, .ok u =>
+    let a := Tng.connect t u
+    let b := Tng.connect u t
+    let eq := match a, b with
+      | .ok a, .ok b => b01 (tngEq a b)
+      | _, _ => "-"
+    some s!"{rs tngInfo a} r={rs tngStr b} eq={eq}"
+  | _, _ => some "panic"
+
+def convFn (mode k : Nat) (e : Nat) : Nat :=
+  if mode == 0 then e + k else if mode == 1 then k - e else e / (k + 1)
+
+def tvReply (t mode k : String) : Option String := do
+  let t ← parseTng? t; let mode ← parseNat? mode; let k ← parseNat? k
+  if mode > 2 then none
+  some (rs tngStr (bindR t fun t => Tng.convertEdges (convFn mode k) t))
+
+def trReply (t i : String) : Option String := do
+  let t ← parseTng? t; let i ← parseNat? i
+  some (rs (fun (x : Path × Tng) => s!"{pathStr x.1}:{tngStr x.2}") (bindR t fun t => Tng.removeAt t i))
+
+def flagsStr (c : CobComp) : String :=
+  s!"{b01 c.isClosed}{b01 c.isCyl}{b01 c.isId}{b01 c.isInvertible}{b01 c.isZeroCob}{b01 c.isUnitCob}"
+
+def invStr : Option CobComp → String
+  | some i => compStr i
+  | none => "-"
+
+def compInfo (c : CobComp) : String :=
+  s!"c={compStr c} nb={rs toString c.nbdr} eu={rs intStr c.eulerNum} deg={rs intStr c.deg} end={natsStr c.endpts} f={flagsStr c} inv={rs invStr c.inv}"
+
+def ckReply (kind : String) (args : List String) : Option String := do
+  match kind, args with
+  | "cls", [g] =>
+    let g ← parseNat? g
+    some (compInfo (CobComp.closedSurf g))
+  | _, _ =>
+    let ps ← args.mapM parsePath?
+    match mapMRes (fun x => x) ps with
+    | .ok ps =>
+      match kind, ps with
+      | "id", [p] => some (compInfo (CobComp.id p))
+      | "sdl", [a, b, c, d] => some (rs compInfo (CobComp.sdl a b c d))
+      | "mrg", [a, b, c] => some (rs compInfo (CobComp.merge a b c))
+      | "spl", [a, b, c] => some (rs compInfo (CobComp.split a b c))
+      | "cup", [p] => some (rs compInfo (CobComp.cup p))
+      | "cap", [p] => some (rs compInfo (CobComp.cap p))
+      | _, _ => none
+    | _ => some "panic"
+
+def ccReply (c : String) : Option String := do
+  let c ← parseComp? c
+  some (rs compInfo c)
+
+def cnReply (c d : String) : Option String := do
+  let c ← parseComp? c; let d ← parseComp? d
+  match c, d with
+  | .ok c, .ok d =>
+    let r := c.connect d
+    let rr := d.connect c
+    let eq := match r, rr with
+      | .ok a, .ok b => b01 (cobCompEq a b)
+      | _, _ => "-"
+    some s!"conn={b01 (c.isConnectable d)} a={sharedEndpts c d} {rs compInfo r} rr={rs compStr rr} eq={eq}"
+  | _, _ => some "panic"
+
+def coReply (c b i dot : String) : Option String := do
+  let c ← parseComp? c; let b ← parseBottom? b; let i ← parseNat? i; let dot ← parseDot? dot
+  some (rs compInfo (bindR c fun c => bindR (c.capOff b i) fun c' => .ok (c'.addDot dot)))
+
+def cobInfo (k : Cob) : String :=
+  s!"k={cobStr k} src={rs tngStr (Cob.src k)} tgt={rs tngStr (Cob.tgt k)} nb={rs intStr (Cob.nbdr k)} eu={rs intStr (Cob.eulerNum k)} deg={rs intStr (Cob.deg k)} f={b01 (Cob.isClosed k)}{b01 (Cob.isInvertible k)}{b01 (Cob.isZeroCob k)} inv={rs (fun (o : Option Cob) => match o with | some i => cobStr i | none => "-") (Cob.inv k)}"
+
+def kqReply (k : String) : Option String := do
+  let k ← parseCob? k
+  some (rs cobInfo k)
+
+def kcReply (k l : String) : Option String := do
+  let k ← parseCob? k; let l ← parseCob? l
+  match k, l with
+  | .ok k, .ok l =>
+    let r := Cob.connect k l
+    let rr := Cob.connect l k
+    let eq := match r, rr with
+      | .ok a, .ok b => b01 (cobEq a b)
+      | _, _ => "-"
+    some s!"{rs cobInfo r} rr={rs cobStr rr} eq={eq}"
+  | _, _ => some "panic"
+
+def ksReply (k l : String) : Option String := do
+  let k ← parseCob? k; let l ← parseCob? l
+  match k, l with
+  | .ok k, .ok l => some s!"stk={b01 (Cob.isStackable k l)} {rs cobInfo (Cob.stack k l)}"
+  | _, _ => some "panic"
+
+def kpReply (k b p dot : String) : Option String := do
+  let k ← parseCob? k; let b ← parseBottom? b; let p ← parsePath? p; let dot ← parseDot? dot
+  some (rs cobInfo (bindR k fun k => bindR p fun p => Cob.capOff k b p dot))
+
+def kiReply (t : String) : Option String := do
+  let t ← parseTng? t
+  some (rs cobInfo (bindR t fun t => .ok (Cob.idFor t)))
+
+end Tngd
+open Tngd
+
 def handle (ts : List String) : String :=
   let r : Option String := do
     match ts with
@@ -177,6 +411,21 @@ def handle (ts : List String) : String :=
             | .error .malformed => some "err-malformed"
             | .error .notComplex => some "err-notcomplex"
       some s!"dd={dd} mat={mat} ref={refS}"
+    | ["tp", p, q] => tpReply p q
+    | ["tn", t] => tnReply t
+    | ["ta", t, p] => taReply t p
+    | ["tc", t, u] => tcReply t u
+    | ["tv", t, mode, k] => tvReply t mode k
+    | ["tr", t, i] => trReply t i
+    | "ck" :: kind :: args => ckReply kind args
+    | ["cc", c] => ccReply c
+    | ["cn", c, d] => cnReply c d
+    | ["co", c, b, i, dot] => coReply c b i dot
+    | ["kq", k] => kqReply k
+    | ["kc", k, l] => kcReply k l
+    | ["ks", k, l] => ksReply k l
+    | ["kp", k, b, p, dot] => kpReply k b p dot
+    | ["ki", t] => kiReply t
     | _ => none
   r.getD "bad-request"
 
